@@ -1051,10 +1051,15 @@ class Interp(object):
             if v.kinds is not None and v.kinds <= frozenset(['NoneType']):
                 return False
             if v.src and v.src[0] == 'cond':
-                # symbolic comparison result produced by models.compare
+                # symbolic comparison result produced by models.compare; a result kept in a variable and tested
+                # again has the truth value it was given the first time
+                if v.src[1].__class__ is not None and getattr(v, 'decided', None) is not None:
+                    return v.decided
                 c = self.choose(2, 'cond')
                 res = (c == 0)
                 v.src[1](res)
+                v.decided = res
+                v.facts.add('truthy' if res else 'falsy')
                 self.emit('guard', node, {'value': v, 'result': res})
                 return res
             c = self.choose(2, 'truth')
